@@ -678,7 +678,8 @@ def build_classes(world):
         src = f"def run(self{''.join(', ' + a for a in argnames)}) -> RT:\n    return _generic_run(self, CSPEC, dict({', '.join(f'{a}={a}' for a in argnames)}))\n"
         g = {'RT': ret_types[kind], '_generic_run': _generic_run, 'CSPEC': c}
         exec(src, g)
-        cls = type(bases[c['base']])(c['py'], (bases[c['base']],), {'Meta': Meta, 'run': g['run'], '__module__': f'tcw.p{c["pipe"]}'})
+        parent = out[c['pybase']] if c.get('pybase') is not None else bases[c['base']]
+        cls = type(parent)(c['py'], (parent,), {'Meta': Meta, 'run': g['run'], '__module__': f'tcw.p{c["pipe"]}'})
         setattr(mods[c['pipe']], c['py'], cls)
         out.append(cls)
     return out
